@@ -97,6 +97,7 @@ CHECKS = {
         "level": "exploration",
         "lanes": [("hostile", hist("C16", qh=40, qs=40, ts=60, extra=["--hostile", "400", "--extreme", "1"]))],
         "rule": "random (every second one extreme-but-accepted) configuration + directed prologue + random history interleaved with hostile messages to every entry point of both contracts (valid, unauthorized, mutated JSON, unknown ids, amounts 0..10^27, every principal incl. contracts and hook accounts, Reply with arbitrary id/data, acks for any sequence, all MigrateMsg variants under every stored version, instantiate with extreme values); every call under catch_unwind with overflow checks on; a panic counts when the state before and the would-be state after have a rate inside [1e-3, 1e3]; distinct = (message kind, outcome, abstract state)",
+        "thorough_extra": "c16_valgrind",
         "require": ["op:probe:execute:ok", "op:probe:execute:fail", "op:probe:query:ok", "op:probe:reply:fail", "op:probe:migrate:fail", "op:probe:instantiate:ok", "op:probe:sudo:ok"],
         "assumptions": [SIM, "simulated block time stays below the year 2286", "panics in states whose exchange rate is outside [1e-3, 1e3] are counted but not reported (outside the property's bounds)"],
     },
@@ -123,8 +124,8 @@ CHECKS = {
     },
     "C12": {
         "level": "exploration", "exhaustive": True,
-        "lanes": [("handover", lane("c12", {"depth": 4, "random": 1500}, {"depth": 5, "random": 5000}))],
-        "rule": "alphabet of 19 symbols ({initial admin, a, b, stranger} x {nominate a, nominate b, revoke, accept} + wait 7d-1s / 1s / 7d); ALL sequences up to the stated depth on both contracts by prefix-tree DFS on world clones, plus random sequences of length 6-40; every step's outcome is compared with a reference state machine, the admin identity is read back (treasury Config, admin-only probes, State.pending_owner) at every leaf and after every handover; distinct = (contract, admin, nominee, clock vs deadline) at leaves",
+        "lanes": [("handover", lane("c12", {"depth": 4, "random": 1500}, {"depth": 6, "random": 5000}))],
+        "rule": "alphabet of 19 symbols ({initial admin, a, b, stranger} x {nominate a, nominate b, revoke, accept} + wait 7d-1s / 1s / 7d); ALL sequences of length 4 (quick) / 6 (thorough) on both contracts by prefix-tree DFS on world clones, plus random sequences of length 6-40; every step's outcome is compared with a reference state machine, the admin identity is read back (treasury Config, admin-only probes, State.pending_owner) at every leaf and after every handover; distinct = (contract, admin, nominee, clock vs deadline) at leaves",
         "require": ["c12:sequences", "c12:handovers", "c12:accept_at_-1", "c12:accept_at_0", "c12:accept_at_1", "c12:random_sequences"],
         "assumptions": [SIM],
     },
@@ -199,3 +200,17 @@ def c19_compare(results, V, binpath, seed):
             path = f"{V}/target/c19-traces/Osmosis/{seed}-{shard}-{h}.json"
             viol.append({"property": "C19", "what": f"the two builds diverge at step {step} of history {k} (same operations, different observable behaviour)", "sig": "builds diverge", "replay": path})
     return viol, {"c19:histories_compared": compared}
+
+
+def c16_valgrind(V, binpath, seed):
+    """supplementary: one short hostile workload under valgrind memcheck (does not decide C16: the
+    property is about panics and the repository has no unsafe code)"""
+    import subprocess, re, time
+    t0 = time.time()
+    try:
+        p = subprocess.run(["valgrind", "--error-exitcode=0", "--quiet", "--leak-check=no", binpath("default"), "hist", "--props", "C16", "--seed", str(seed), "--histories", "2", "--steps", "30", "--hostile", "60", "--extreme", "1", "--out", "/dev/null", "--replay-dir", f"{V}/target/valgrind-replays"],
+                           capture_output=True, text=True, timeout=900)
+    except Exception as e:  # noqa
+        return {"valgrind_memcheck": {"status": f"inconclusive: {e}"}}
+    errs = len(re.findall(r"^==\d+== (Invalid|Conditional jump|Use of uninitialised|Mismatched|Source and destination)", p.stderr, re.M))
+    return {"valgrind_memcheck": {"status": "ran", "rc": p.returncode, "error_reports": errs, "wall_s": round(time.time() - t0, 1)}}
